@@ -356,7 +356,11 @@ static void under_interp(vh::Rng & rng, unsigned nfields)
                 case 0: v = (R)cfg.min[k]; break;
                 case 1: v = (R)cfg.max[k]; break;
                 case 2: v = (R)(cfg.max[k] + 1); break;
-                case 3: v = (R)(rng.unit() * 4.0e9); break;                 // far beyond the grid
+                case 3: {
+                    static const double far[] = {4.0e9, 4294967296.0, 4294967298.0, 17179869185.0, 1.0e17, 4611686018427387904.0, 9.0e18};
+                    v = (R)(rng.coin() ? rng.unit() * 4.0e9 : far[rng.below(7)] + (double)rng.below(ext[k]));  // far beyond the grid
+                    break;
+                }
                 case 4: v = (R)((double)ext[k] + rng.unit() * 5); break;
                 default: v = (R)(rng.unit() * (double)(ext[k] + 1)); break;
                 }
